@@ -82,3 +82,115 @@ class HasTraitsSetState(Contract):
 
     def covers(self, cx, ov, info):
         return [("restores", lambda k, p, s: k == "return"), ("fails-midway", lambda k, p, s: k == "raise")]
+
+
+# ------------------------------------------------------------------------------------------------------------------
+# clone_traits: the same discipline for copies (C14 'The copy is fully live', C12 'no read returns a stale value')
+# ------------------------------------------------------------------------------------------------------------------
+CLONE_STEPS = ("_init_trait_listeners", "_init_trait_observers", "copy_traits", "_post_init_trait_listeners", "_post_init_trait_observers",
+               "traits_init", "_trait_set_inited")
+
+
+@register
+class HasTraitsCloneTraits(Contract):
+    """clone_traits(traits, memo, copy): a NEW object of the same class is created without running __init__, registered in
+    the memo under id(self) BEFORE any value is copied (cycles through the original resolve to the clone), its static
+    listeners and declared observers are installed BEFORE copy_traits assigns the values (so dependent properties and
+    handlers see every restored value), the values are carried over by copy_traits(self, traits, memo, copy) on the new
+    object, then the post-init hooks, traits_init() and the 'inited' flag follow -- each step once, in this order; the
+    requested copy mode is recorded in the memo for nested objects; the clone is returned."""
+    path = PATH
+    qualname = "HasTraits.clone_traits"
+    properties = ("C14", "C12")
+    class_paths = (PATH,)
+    overloads = ("explicit-names",)
+    assumptions = ("A-PY", "the steps are used through summaries (each records its call and may raise); explicit non-empty list of names")
+
+    def configure(self, cx, I, ov):
+        cx.const("None")
+        cx.contracts = dict(cx.contracts)
+        for s in CLONE_STEPS:
+            cx.contracts[("HasTraits", s)] = step(s)
+        self.new_obj = None
+
+        def getattr_hook(I2, obj, name, st, k):
+            # self.__new__(self.__class__): a fresh, uninitialised object of the same class
+            if isinstance(obj, VRef) and name == "__class__":
+                return k(VFunc("classof", ref=obj), st)
+            return None
+        cx.getattr_hook = getattr_hook
+        orig_elem = cx.elem_attrs
+
+        def new_hook(I2, fv, args, kwargs, st, k):
+            return None
+        cx.call_hook = new_hook
+
+    def setup(self, cx, I, ov):
+        st = St()
+        self.self_ref = VRef(cx.new_oid())
+        cx_self = self
+
+        def open_fields(cx2, obj, name, st2):
+            if name == "__class__":
+                return VFunc("classof", ref=obj)
+            if name == "__new__":
+                def apply(I2, a, kw, s, kk):
+                    ok = len(a) == 1 and isinstance(a[0], VFunc) and a[0].kind == "classof" and a[0].ref.oid == cx_self.self_ref.oid
+                    r = VRef(I2.cx.new_oid())
+                    s2 = s.put(r.oid, HObj("obj", None, "HasTraits", {})).gset("created", s.ghost.get("created", ()) + ((r.oid, ok, len(s.ghost.get("steps", ()))),))
+                    return kk(r, s2)
+                return VFunc("opaque", name="__new__", apply=apply)
+            return None
+        st = st.put(self.self_ref.oid, HObj("obj", None, "HasTraits", {}, {"open_fields": open_fields}))
+        self.names = z3.Const("names", SeqV)
+        tref = VRef(cx.new_oid())
+        st = st.put(tref.oid, HObj("list", self.names)).assume(z3.Length(self.names) > 0)
+        self.memo_ref = VRef(cx.new_oid())
+        st = st.put(self.memo_ref.oid, HObj("dict", z3.Const("memo0", MapV)))
+        self.copy = z3.Const("copy_mode", Val)
+
+        def eq_hook(I2, op, a, b, st2, k):
+            import ast as _ast
+            for x, y in ((a, b), (b, a)):
+                if isinstance(x, VRef) and isinstance(y, VStr):
+                    return k(VBool(isinstance(op, _ast.NotEq)), st2)
+            return None
+        cx.eq_hook = eq_hook
+        return st, [self.self_ref, tref, self.memo_ref, VElem(self.copy)], {}, dict(witness={})
+
+    def post(self, cx, I, ov, info, kind, payload, st):
+        steps = st.ghost.get("steps", ())
+        names = [s[0] for s in steps]
+        created = st.ghost.get("created", ())
+        if kind == "raise":
+            ok = payload.origin and payload.origin[0] == "step"
+            return [("raise:only-a-failing-step-raises", z3.BoolVal(bool(ok)), dict(exception="%s %r" % (payload.cname or payload.sym, payload.origin))),
+                    ("raise:steps-ran-in-order-up-to-the-failing-one", z3.BoolVal(names == list(CLONE_STEPS[:len(names)]) and bool(ok) and names[-1] == payload.origin[1]))]
+        out = [("post:one-new-object-of-the-same-class-created-without-running-__init__", z3.BoolVal(len(created) == 1 and created[0][1])),
+               ("post:every-step-exactly-once-in-order", z3.BoolVal(names == list(CLONE_STEPS)))]
+        if len(created) == 1:
+            noid = created[0][0]
+            out.append(("post:the-clone-is-created-before-any-step-runs", z3.BoolVal(created[0][2] == 0)))
+            out.append(("post:returns-the-clone", z3.BoolVal(isinstance(payload, VRef) and payload.oid == noid)))
+            cp = [s for s in steps if s[0] == "copy_traits"]
+            if cp:
+                a = cp[0][1]
+                kw = cp[0][2]
+                out.append(("post:listeners-and-observers-are-in-place-before-the-values-are-copied",
+                            z3.BoolVal(names.index("_init_trait_listeners") < names.index("copy_traits") and names.index("_init_trait_observers") < names.index("copy_traits"))))
+                ok_args = (len(a) == 4 and isinstance(a[0], VRef) and a[0].oid == self.self_ref.oid and isinstance(a[2], VRef) and a[2].oid == self.memo_ref.oid
+                           and isinstance(a[3], VElem) and a[3].t.eq(self.copy) and isinstance(a[1], VRef))
+                out.append(("post:values-copied-from-the-original-with-the-caller's-names-memo-and-copy-mode", z3.BoolVal(bool(ok_args))))
+                if ok_args:
+                    out.append(("post:the-names-requested-are-the-names-copied", st.heap[a[1].oid].payload == self.names))
+            # the memo: id(self) -> clone, recorded before copy_traits; the copy mode recorded for nested objects
+            memo = st.heap[self.memo_ref.oid].payload
+            idself = z3.Function("id_of", Val, z3.IntSort())(cx.ref_val(self.self_ref))
+            key = cx.box_int(idself) if hasattr(cx, "box_int") else None
+            if key is not None:
+                kt = key.t if hasattr(key, "t") else key
+                out.append(("post:the-clone-is-registered-in-the-memo-under-id(self)", memo[kt] == Opt.some(cx.ref_val(VRef(noid)))))
+        return out
+
+    def covers(self, cx, ov, info):
+        return [("clones", lambda k, p, s: k == "return"), ("fails-midway", lambda k, p, s: k == "raise")]
